@@ -40,6 +40,10 @@ struct PortObserver {
     o: PortOracle,
     pending_lines: Vec<POp>,
     pending_store: Vec<(u32, ByteStore)>,
+    /// a BST met the one case in which the shipped instruction and the hardware disagree about the byte it computes
+    /// (C = 0 and the bit reads 1: C04's ground): the rest of this run is not judged
+    c04_ground: bool,
+    bst_judged: u64,
     msgs_checked: u64,
     stores: u64,
     pin_events: u64,
@@ -63,6 +67,9 @@ fn parse_line(l: &str) -> Option<POp> {
 
 impl Observer for PortObserver {
     fn boundary(&mut self, cpu: &mut Cpu, g: &Guest, row: &Row, prev: Option<&Row>, new: &[String]) -> Result<(), Failure> {
+        if self.c04_ground {
+            return Ok(());
+        }
         if let Some(p) = prev {
             let before = self.o.outputs();
             let mut seen = vec![before];
@@ -86,7 +93,17 @@ impl Observer for PortObserver {
                     if kind.is_rmw() {
                         self.rmw += 1;
                     }
-                    let val = kind.resolve(if is_ddr { cur.ddr } else { cur.dr_read() }, p.ccr);
+                    let read = if is_ddr { cur.ddr } else { cur.dr_read() };
+                    if let ByteStore::BitFromC { bit, invert } = kind {
+                        if ((p.ccr & 1) != 0) == invert && read & (1 << bit) != 0 {
+                            // which byte BST computes here is C04's business; that the byte is written back (and loads the
+                            // latch with what was read) is judged in every other case
+                            self.c04_ground = true;
+                            return Ok(());
+                        }
+                        self.bst_judged += 1;
+                    }
+                    let val = kind.resolve(read, p.ccr);
                     self.o.apply(&if is_ddr { POp::Ddr { port, val } } else { POp::Dr { port, val } });
                     seen.push(self.o.outputs());
                     self.stores += 1;
@@ -145,6 +162,9 @@ impl Observer for PortObserver {
         if !matches!(outcome, Outcome::Ok) {
             return Err(Failure::new("c16.sys.progress", format!("run ended with {:?}", outcome)));
         }
+        if self.c04_ground {
+            return Ok(());
+        }
         // the final iteration (the jump to the exit) makes no port access; pin events fired at its top still apply
         let before = self.o.outputs();
         let mut seen = vec![before];
@@ -191,6 +211,9 @@ impl Property for C16S {
         ports.truncate(nports);
         let covering = [0x00u8, 0xff, 0x0f, 0xf0, 0x55, 0xaa, 0x01, 0x80];
         let n = rng.range(2, if tier == Tier::Quick { 30 } else { 80 }) as usize;
+        // BST #n,@PnDR in a third of the scenarios: with C = 1 it sets the bit, with C = 0 and the bit reading 0 it writes
+        // the byte back unchanged (loading the latch with the pin levels of input bits); the remaining case ends the judging
+        let with_bst = rng.chance(1, 3);
         let mut blocks = Vec::new();
         for _ in 0..n {
             let port = *rng.pick(&ports) as u32;
@@ -203,9 +226,10 @@ impl Property for C16S {
                     if rng.chance(1, 2) {
                         Block::Bclr { aa: (0xd0 + port - 1) as u8, bit: rng.below(8) as u8 }
                     } else {
-                        // BNOT only: the emulator's BST/BIST never clear a bit when C = 0 (instruction semantics, C04 ground -
-                        // seen because the port model disagreed; not this check's business)
-                        Block::BitOp { aa: (0xd0 + port - 1) as u8, bit: rng.below(8) as u8, op: 0 }
+                        // BNOT, and BST where it can be judged. Never BIST: the shipped emulator executes it as BST, and its
+                        // BST never clears a bit when C = 0 (instruction semantics, C04 ground - seen because the port model
+                        // disagreed; not this check's business)
+                        Block::BitOp { aa: (0xd0 + port - 1) as u8, bit: rng.below(8) as u8, op: if with_bst && rng.chance(2, 3) { 1 } else { 0 } }
                     }
                 }
                 8 => Block::SetCcr(rng.u8() & 0x7f), // C (and the other flags) varies for the bit stores
@@ -252,7 +276,7 @@ impl Property for C16S {
                 _ => return Verdict::Invalid("event kind not part of C16 scenarios".into()),
             }
         }
-        let obs = PortObserver { o: PortOracle::new(Deviation::default()), pending_lines: vec![], pending_store: vec![], msgs_checked: 0, stores: 0, pin_events: 0, rmw: 0, ext_writes: 0, sig: Fnv::new(), paused: false };
+        let obs = PortObserver { o: PortOracle::new(Deviation::default()), pending_lines: vec![], pending_store: vec![], c04_ground: false, bst_judged: 0, msgs_checked: 0, stores: 0, pin_events: 0, rmw: 0, ext_writes: 0, sig: Fnv::new(), paused: false };
         let (run, obs) = run_sys(&g, &scn.cfg, &scn.events, obs, false, |_| {});
         if let Outcome::Panic(p) = &run.outcome {
             return Verdict::Fail(Failure::keyed("c16.sys.panic", format!("{}:{}", p.file, p.msg), format!("panic at {}:{}: {}", p.file, p.line, p.msg)));
@@ -262,6 +286,8 @@ impl Property for C16S {
         }
         add(stats, "probe.guest_port_stores", obs.stores);
         add(stats, "probe.read_modify_write_stores", obs.rmw);
+        add(stats, "bst_stores_judged", obs.bst_judged);
+        add(stats, "runs_left_unjudged_after_a_bst_on_c04_ground", obs.c04_ground as u64);
         add(stats, "event.pin_changes_applied", obs.pin_events);
         add(stats, "event.port_register_writes_from_outside", obs.ext_writes);
         add(stats, "probe.ioport_messages_checked", obs.msgs_checked);
